@@ -37,8 +37,19 @@ Verdict(e) ==
                    ~Explains(d[k].seq, d[IdxOf(m.father)].seq, m.from, m.to, m.pos)}
   IN IF bad # {} THEN "graph" ELSE IF badmut # {} THEN "mutation" ELSE "ok"
 
+(* an event of kind "cmd": what the obiclean COMMAND wrote for one sample of its input (status and weight *)
+(* of every sequence of that sample), against the graph of that sample                                    *)
+CmdVerdict(e) ==
+  LET d == [i \in 1..Len(e.seqs) |-> [seq |-> e.seqs[i], count |-> e.counts[i]]]
+      G == C!Graph(d, e.ratio)
+  IN IF \E k \in 1..Len(d) : e.status[k] # G[k].status THEN "cmd-status"
+     ELSE IF \E k \in 1..Len(d) : e.weight[k] # G[k].weight THEN "cmd-weight"
+     ELSE "ok"
+
+AnyVerdict(e) == IF "kind" \in DOMAIN e /\ e.kind = "cmd" THEN CmdVerdict(e) ELSE Verdict(e)
+
 Init == l \in 1..Len(Trace) /\ res = "todo"
-Next == res = "todo" /\ res' = Verdict(Trace[l]) /\ UNCHANGED l
+Next == res = "todo" /\ res' = AnyVerdict(Trace[l]) /\ UNCHANGED l
 Report == (res \notin {"todo", "ok"}) =>
    CSVWrite("%1$s", <<ToJson([l |-> l, why |-> res])>>, IOEnv.VERIF_REJECTS)
 =============================================================================
